@@ -1016,6 +1016,20 @@ func checkC19(w *World, r *Report) {
 			r.Check(ok1 && ok2, "C19.R4", "Member.PID<->Cluster.Start", "members address each other's agent as cluster/<id>, the id the agent is spawned under", w.fnPos(mp), "notifications are sent to a PID no agent answers to")
 		}
 	}
+	{
+		var bad []string
+		for _, fn := range w.MethodsOf("cluster", "Agent") {
+			for _, b := range fn.Blocks {
+				for _, in := range b.Instrs {
+					if g, isGo := in.(*ssa.Go); isGo {
+						bad = append(bad, fname(fn)+" at "+w.pos(g.Pos()))
+					}
+				}
+			}
+		}
+		r.Check(len(bad) == 0, "C19.R4", "Agent:no-go-statement", "the agent's tables are touched only from its own Receive (no goroutine started by Agent methods)", w.fnPos(a.recv),
+			"a goroutine started at "+strings.Join(bad, ", ")+" reads or writes members/activated concurrently with the agent")
+	}
 	// R6: the Cluster facade
 	r.Rule("C19.R6", "Cluster.Activate/Deactivate/GetActiveByID/GetActiveByKind/Spawn talk to the local agent with the caller's arguments; Cluster.Spawn announces the new PID to every member", 6)
 	{
